@@ -78,6 +78,15 @@ def gen(ctx):
         L = rng.randint(1, 6)
         cases.append({"kind": "mkkernel", "values": [rng.choice([True, False]) for _ in range(L)],
                       "as": rng.choice(["bool", "bool", "int", "float"])})
+    # a fixed share: ELECTRE1 on MORE THAN 256 alternatives forming a dominance chain (alternative k is outranked by exactly k others)
+    for m_ in ([258] if not ctx.thorough else [257, 300, 520]):
+        spec = {"name": "ELECTRE1", "p": 0.5, "q": 1.0}
+        n_ = rng.randint(2, 3)
+        dmc = M.in_domain_dm(rng, spec, min_m=4, max_m=5, min_n=n_, max_n=n_, mix="max")
+        dmc["matrix"] = [[float(2 * m_ - i + (j % 2)) for j in range(n_)] for i in range(m_)]
+        dmc["alternatives"] = [f"L{i}" for i in range(m_)]
+        dmc["int_matrix"], dmc["family"], dmc["via"] = False, "dyadic", False
+        cases.append({"kind": "method", "spec": spec, "dm": dmc})
     # a fixed share: alternatives that share a label (mkdm accepts repeated labels): the result names the input's alternatives as given
     for _ in range(ctx.n(40, 400)):
         spec = M.random_spec(rng, [n_ for n_ in ("WSM", "WPM", "TOPSIS", "RatioMOORA", "RefPointMOORA", "FMF", "MultiMOORA", "ELECTRE1", "ELECTRE2")])
